@@ -25,4 +25,5 @@ INVARIANT NoLeftovers
 INVARIANT MailboxExclusive
 INVARIANT SlotsRegistered
 INVARIANT WantsMatch
+INVARIANT UsurpedWasReplaced
 CHECK_DEADLOCK FALSE
